@@ -183,6 +183,7 @@ theorem assign1_l_ctx (v : V) : assign1 "ctx" v st = .norm { st with env := ("ct
 theorem assign1_l_cancel (v : V) : assign1 "cancel" v st = .norm { st with env := ("cancel", v) :: st.env } := rfl
 theorem assign1_l_cursorStyle (v : V) : assign1 "cursorStyle" v st = .norm { st with env := ("cursorStyle", v) :: st.env } := rfl
 theorem assign1_l_button (v : V) : assign1 "button" v st = .norm { st with env := ("button", v) :: st.env } := rfl
+theorem assign1_l_blank (v : V) : assign1 "_" v st = .norm st := rfl
 theorem orAssign_mods (n : Int) (h : 0 ≤ n) : orAssign "mouse.Modifiers" (.int n) st =
     (match setMouse st.env fun m => { m with mods := m.mods ||| n.toNat } with | .ok e => .norm { st with env := e } | .error f => .fail f) := by
   simp only [orAssign, if_true, h]
@@ -450,7 +451,7 @@ theorem callFn_ctxDone (c : Ctx) (env : Env) (vs : VState) (h : List.lookup "ctx
   unfold callFn; simp [h]
 attribute [ib] callFn_ctxDone
 
-attribute [ib] orAssign_mods
+attribute [ib] orAssign_mods assign1_l_blank
 attribute [ib low] condBranch_ok condBranch_not
 
 theorem retVal_ret (st : St) (v : V) : retVal (.ret st v) = .ok v := rfl
